@@ -63,12 +63,22 @@ def impl_batch(case):
             pi = parse(inst)
             res = {"parsed_type": pi.data_type, "runs": {}}
             f = converter(inst["kind"])
-            for tb in (["none"] if inst["kind"] in ("soc", "soi") else ["accept", "first", "random"]):
-                np.random.seed(it["seed"])
-                r = f(pi) if tb == "none" else f(pi, tie_breaker=tb)
-                arr = np.asarray(r)
-                res["runs"][tb] = {"rows": [[None if (isinstance(x, float) and np.isnan(x)) else int(x) for x in row.tolist()] for row in arr],
-                                   "type": type(r).__name__}
+
+            def convert_all():
+                runs = {}
+                for tb in (["none"] if inst["kind"] in ("soc", "soi") else ["accept", "first", "random"]):
+                    np.random.seed(it["seed"])
+                    r = f(pi) if tb == "none" else f(pi, tie_breaker=tb)
+                    arr = np.asarray(r)
+                    runs[tb] = {"rows": [[None if (isinstance(x, float) and np.isnan(x)) else int(x) for x in row.tolist()] for row in arr],
+                                "type": type(r).__name__}
+                return runs
+            res["runs"] = convert_all()
+            if it.get("then"):
+                apply_then(pi, inst["kind"], it["then"])
+                if pi.data_type == inst["kind"]:
+                    res["runs2"] = convert_all()
+                pi = parse(inst)
             # wrong data type must be rejected
             wrong = {}
             for k2 in KINDS:
@@ -88,46 +98,98 @@ def impl_batch(case):
     return {"results": out}
 
 
-def gen_instance(R):
+def gen_order(R, kind, m, ncat):
+    alts = list(range(1, m + 1))
+    R.rng.shuffle(alts)
+    if kind in ("soi", "toi"):
+        alts = alts[:R.rng.randint(1, m)]
+    if kind in ("soc", "soi"):
+        classes = [[a] for a in alts]
+    elif kind in ("toc", "toi"):
+        classes = []
+        i = 0
+        while i < len(alts):
+            s = R.rng.randint(1, min(3, len(alts) - i))
+            classes.append(sorted(alts[i:i + s]) if R.rng.random() < 0.5 else alts[i:i + s])
+            i += s
+    else:
+        sub = alts[:R.rng.randint(0, m)]
+        classes = [[] for _ in range(ncat)]
+        for a in sub:
+            classes[R.rng.randrange(ncat)].append(a)
+        if not any(classes) and R.rng.random() < 0.5:
+            # half of the ballots that came out empty stay empty: a voter who placed no alternative in any category is a row of NaN
+            classes[0].append(alts[0])
+    return classes
+
+
+def gen_instance(R, big=False):
     kind = R.rng.choice(KINDS)
     m = R.rng.randint(1, 9)
     norders = R.rng.randint(1, 5)
+    if big:
+        # PrefLib has elections with hundreds of alternatives: positions beyond 255 must survive whatever storage the converter uses
+        kind = R.rng.choice(["soc", "soi", "toc", "toi"])
+        m = R.rng.choice([255, 256, 257, 300])
+        norders = R.rng.randint(1, 2)
     orders, seen = [], set()
     ncat = R.rng.randint(1, 4)
     tries = 0
     while len(orders) < norders and tries < 50:
         tries += 1
-        alts = list(range(1, m + 1))
-        R.rng.shuffle(alts)
-        if kind in ("soi", "toi"):
-            alts = alts[:R.rng.randint(1, m)]
-        if kind in ("soc", "soi"):
-            classes = [[a] for a in alts]
-        elif kind in ("toc", "toi"):
-            classes = []
-            i = 0
-            while i < len(alts):
-                s = R.rng.randint(1, min(3, len(alts) - i))
-                classes.append(sorted(alts[i:i + s]) if R.rng.random() < 0.5 else alts[i:i + s])
-                i += s
-        else:
-            sub = alts[:R.rng.randint(0, m)]
-            classes = [[] for _ in range(ncat)]
-            for a in sub:
-                classes[R.rng.randrange(ncat)].append(a)
-            if not any(classes):
-                classes[0].append(alts[0])
+        classes = gen_order(R, kind, m, ncat)
         key = json.dumps(classes)
         if key in seen:
             continue
         seen.add(key)
         orders.append([classes, R.rng.randint(1, 3)])
+    if kind == "cat" and not any(c for cl, _ in orders for c in cl):
+        # an election in which nobody placed anything has no profile in this library (every profile type needs a rank 1 somewhere:
+        # utils.check_profile), so at least one ballot lists an alternative
+        orders[0][0][0].append(1)
     inst = {"kind": kind, "m": m, "orders": orders}
     if kind == "cat":
         inst["ncat"] = ncat
     if R.rng.random() < 0.15:
         inst["no_voter_header"] = True
     return inst
+
+
+def gen_then(R, inst):
+    """ballots added to the SAME parsed instance object after it has been converted once (preflibtools' own append_vote_map; for a
+    categorical instance its preferences/multiplicity tables): one that raises the multiplicity of an existing order and up to two more"""
+    kind, m = inst["kind"], inst["m"]
+    extra = [[json.loads(json.dumps(R.rng.choice(inst["orders"])[0])), R.rng.randint(1, 2)]]
+    for _ in range(R.rng.randint(0, 2)):
+        extra.append([gen_order(R, kind, m, inst.get("ncat", 1)), R.rng.randint(1, 2)])
+    return extra
+
+
+def merged(inst, then):
+    out = json.loads(json.dumps(inst))
+    for classes, mult in then:
+        for o in out["orders"]:
+            if o[0] == classes:
+                o[1] += mult
+                break
+        else:
+            out["orders"].append([json.loads(json.dumps(classes)), mult])
+    return out
+
+
+def apply_then(pi, kind, then):
+    for classes, mult in then:
+        key = tuple(tuple(c) for c in classes)
+        if kind == "cat":
+            if key in pi.multiplicity:
+                pi.multiplicity[key] += mult
+            else:
+                pi.preferences.append(key)
+                pi.multiplicity[key] = mult
+            pi.num_voters += mult
+            pi.num_unique_preferences = len(pi.preferences)
+        else:
+            pi.append_vote_map({key: mult})
 
 
 def expected_rows(inst, mode):
@@ -180,6 +242,9 @@ def judge(R, it, res, answers):
     inst = it["inst"]
     kind = inst["kind"]
     cfg = {"kind": kind, "seed": it["seed"]}
+    if it.get("seq"):
+        cfg["seq"] = it["seq"]
+        R.count("second_conversion_after_ballots_were_added")
     if "exc" in res or "hang" in res:
         R.violation("property_violation", "conversion of a well-formed instance succeeds", f"{ENTRY}.preflib_{kind}_to_profile", inst, impl_output=res,
                     oracle="raised/hang", config=cfg)
@@ -251,6 +316,12 @@ def run_items(R, items):
     flat = []
     for case, res in zip(cases, results):
         flat += res["results"] if "results" in res else [{"hang": True}] * len(case["items"])
+    items = list(items)
+    for it, res in list(zip(items, flat)):
+        if "runs2" in res:
+            # the second conversion of the same instance object, after ballots were added, is judged as the conversion of the merged instance
+            items.append({"inst": merged(it["inst"], it["then"]), "seed": it["seed"], "seq": {"first": it["inst"], "then": it["then"]}})
+            flat.append({"parsed_type": res["parsed_type"], "runs": res["runs2"], "wrong": {}})
     allL, spans = [], []
     for it, res in zip(items, flat):
         L = lean_lines(it["inst"], res) if "runs" in res else []
@@ -266,12 +337,21 @@ def run_items(R, items):
 
 def run(R):
     R.rule = ("random abstract instances of the five kinds (soc, soi, toc, toi, categorical): 1-9 alternatives, 1-5 distinct orders with multiplicities "
-              "1-3, indifference classes of size 1-3, empty categories; written in PrefLib file syntax, parsed by preflibtools, converted with every "
+              "1-3, indifference classes of size 1-3, empty categories and ballots with nothing but empty categories; one instance in a hundred has "
+              "255-300 alternatives; a quarter of the instances are converted, given further ballots through preflibtools (same object) and converted "
+              "again, the second result being judged as the conversion of the merged instance; written in PrefLib file syntax, parsed by preflibtools, converted with every "
               "tie-breaker (random under a seed) and offered to all four other converters (must be rejected). Non-trivial = >= 2 alternatives.")
     R.assumptions = ["preflibtools' parser is trusted", "the final Profile.of validation is outside the model"]
-    items = [{"inst": gen_instance(R), "seed": R.rng.randrange(10 ** 6)} for _ in range(10000 if R.thorough else 700)]
+    items = [{"inst": gen_instance(R, big=(t % 100 == 50)), "seed": R.rng.randrange(10 ** 6)} for t in range(10000 if R.thorough else 700)]
+    for t, it in enumerate(items):
+        if t % 4 == 1:
+            it["then"] = gen_then(R, it["inst"])
     run_items(R, items)
 
 
 def replay(R, rep):
-    run_items(R, [{"inst": rep["input"], "seed": rep.get("config", {}).get("seed", 0)}])
+    cfg = rep.get("config", {})
+    if cfg.get("seq"):
+        run_items(R, [{"inst": cfg["seq"]["first"], "then": cfg["seq"]["then"], "seed": cfg.get("seed", 0)}])
+    else:
+        run_items(R, [{"inst": rep["input"], "seed": cfg.get("seed", 0)}])
